@@ -37,8 +37,13 @@ inductive Op where
   | clearAll                      -- mpt_command_clear
   | emitId (id : Id) (h : HRes)   -- event carrying an id
   | emitMsg (msg : List Byte) (h : HRes)   -- event carrying a message (first byte = id)
+  | emitCmd (msg : List Byte) (h : HRes)   -- as emitMsg, but the handler reached does not answer itself: it dispatches
+                                  --   the event's command text by hash (`mpt_dispatch_hash` on the same dispatcher,
+                                  --   the documented wiring of text commands to a message type) and hands that
+                                  --   result on; `h` is the answer of the handler invoked inside
   | emitNone (h : HRes)           -- no event: the default event
   | hash (msg : List Byte) (h : HRes)      -- command text message, id = hash of the text
+  | hashFrag (frags : List (List Byte)) (h : HRes)   -- the same with the message given in fragments
   | reserve (w : Nat)             -- reserve a fresh request id (width class w) and activate it with a new registration
   | fini                          -- tear the dispatcher down
   | drop                          -- release the handler table through the generic array interface
@@ -137,6 +142,12 @@ def cmdIds (msg : List Byte) : List (Option Id) :=
       else (if t.head? = some 0 then [none] else []) ++ (prefixes t).map (fun u => some (hashDjb2 u))
   | _ => [none]
 
+/-- readings of a command message that arrives in fragments: those of the flattened message; a command text that is
+    not contiguous in memory and longer than the 128-byte scratch buffer may be refused
+    ("large unaligned text command") -/
+def cmdIdsFrag (frags : List (List Byte)) : List (Option Id) :=
+  cmdIds frags.flatten ++ (if frags.length > 1 ∧ frags.flatten.length > 130 then [none] else [])
+
 /- ---------- abstract state ---------- -/
 structure Spec where
   live : List (Id × Reg)     -- the handlers currently registered: id ↦ registration
@@ -193,10 +204,38 @@ def stepRegister (sp : Spec) (id : Id) (out : Out) : Option Spec :=
     else if isErr out.ret && out.log == [] then some { sp with next := r + 1 }
     else none
 
-/-- delivery of an event with id `id` to `r`, answer `h`: exactly one invocation, then the bookkeeping -/
-def stepDeliver (sp : Spec) (r : Reg) (id : Id) (h : HRes) (out : Out) : Option Spec :=
-  let b := book sp.dflt id h
-  if out.ret = .val b.1 && out.log == [.call r id] then some { sp with dflt := b.2 } else none
+/-- outcomes `(log, returned value, event id afterwards)` the property allows when the command text of `msg` is
+    dispatched by hash from inside a handler and the handler reached that way answers `h`: no command text, or
+    nobody to take it, fails (`Fail|Default`, event id cleared = "no default event"); an error of the command's
+    handler is reported the same way -/
+def hashOutcomes (sp : Spec) (msg : Option (List Byte)) (h : HRes) : List (List LogE × Int × Id) :=
+  match msg with
+  | none => [([], failDefault, 0)]
+  | some m =>
+    (cmdIds m).flatMap fun cid =>
+      match cid with
+      | none => [([], failDefault, 0)]
+      | some id2 =>
+        let left : Id := if h.zero then 0 else id2
+        match sp.lookup id2 with
+        | some r2 => if h.val < 0 then [([.call r2 id2], failDefault, 0)] else [([.call r2 id2], h.val, left)]
+        | none =>
+          match sp.fb with
+          | some r2 => [([.call r2 id2], h.val, left)]
+          | none =>
+            if sp.bi then [([], (builtinAnswer id2 (some m)).val, if (builtinAnswer id2 (some m)).zero then 0 else id2)]
+            else [([], failDefault, 0)]
+
+/-- delivery of an event with id `id` to `r`, answer `h`: exactly one invocation, then the bookkeeping; a handler
+    that dispatches by hash (`nest`) adds the invocation made inside, and the bookkeeping uses what came back -/
+def stepDeliver (sp : Spec) (r : Reg) (id : Id) (msg : Option (List Byte)) (nest : Bool) (h : HRes) (out : Out) : Option Spec :=
+  if nest then
+    (sp.hashOutcomes msg h).findSome? fun o =>
+      let b := book sp.dflt o.2.2 ⟨o.2.1, false⟩
+      if out.ret = .val b.1 && out.log == .call r id :: o.1 then some { sp with dflt := b.2 } else none
+  else
+    let b := book sp.dflt id h
+    if out.ret = .val b.1 && out.log == [.call r id] then some { sp with dflt := b.2 } else none
 
 /-- nobody registered and no registered fallback: the built-in fallback answers (nothing is logged), or the event is refused -/
 def stepUnhandled (sp : Spec) (id : Id) (msg : Option (List Byte)) (out : Out) : Option Spec :=
@@ -205,9 +244,9 @@ def stepUnhandled (sp : Spec) (id : Id) (msg : Option (List Byte)) (out : Out) :
     if out.ret = .val b.1 && out.log == [] then some { sp with dflt := b.2 } else none
   else if isErr out.ret && out.log == [] then some sp else none
 
-def stepEmit (sp : Spec) (id : Id) (msg : Option (List Byte)) (h : HRes) (out : Out) : Option Spec :=
+def stepEmit (sp : Spec) (id : Id) (msg : Option (List Byte)) (nest : Bool) (h : HRes) (out : Out) : Option Spec :=
   match sp.target id with
-  | some r => sp.stepDeliver r id h out
+  | some r => sp.stepDeliver r id msg nest h out
   | none => sp.stepUnhandled id msg out
 
 def stepHashId (sp : Spec) (msg : List Byte) (cid : Option Id) (h : HRes) (out : Out) : Option Spec :=
@@ -236,22 +275,27 @@ def step (sp : Spec) (op : Op) (out : Out) : Option Spec :=
     | none => if isErr out.ret && out.log == [] then some sp else none
   | .clearAll =>
     if isOk out.ret && sameSet out.log (sp.live.map (.fin ·.2)) then some { sp with live := [] } else none
-  | .emitId id h => sp.stepEmit id none h out
+  | .emitId id h => sp.stepEmit id none false h out
   | .emitMsg msg h =>
     match msg with
     | [] => if isErr out.ret && out.log == [] then some sp else none
-    | b :: _ => sp.stepEmit b.toUInt64 (some msg) h out
+    | b :: _ => sp.stepEmit b.toUInt64 (some msg) false h out
+  | .emitCmd msg h =>
+    match msg with
+    | [] => if isErr out.ret && out.log == [] then some sp else none
+    | b :: _ => sp.stepEmit b.toUInt64 (some msg) true h out
   | .emitNone h =>
     if sp.dflt = 0 then (if out.ret = .val 0 && out.log == [] then some sp else none)
     else match sp.lookup sp.dflt with
-      | some r => sp.stepDeliver r sp.dflt h out
+      | some r => sp.stepDeliver r sp.dflt none false h out
       | none =>
         -- a default id that names no handler: refused and forgotten, or handed to the fallback
         if isErr out.ret && out.log == [] then some { sp with dflt := 0 }
         else match sp.fb with
-          | some r => sp.stepDeliver r sp.dflt h out
+          | some r => sp.stepDeliver r sp.dflt none false h out
           | none => if sp.bi then sp.stepUnhandled sp.dflt none out else none
   | .hash msg h => (cmdIds msg).findSome? fun cid => sp.stepHashId msg cid h out
+  | .hashFrag frags h => (cmdIdsFrag frags).findSome? fun cid => sp.stepHashId frags.flatten cid h out
   | .reserve _ =>
     let r := sp.next
     match out.ret with
